@@ -503,6 +503,11 @@ func (g *genCtx) updateCases(perDefect int) []ccase {
 				class = d.name
 			}
 			e := &expect{Family: "update", Class: class, Allowed: allow(cut, wire.TypeUpdate, true, 3, d.subs...)}
+			if cut != sess2.CutEstablished {
+				// before Established an UPDATE is out of place whatever its content, and nothing is negotiated yet
+				// (AS number width): any UPDATE Message Error or an FSM Error is an answer
+				e.Allowed = [][2]int{{3, -1}, {5, -1}}
+			}
 			out = append(out, g.mk("upd:"+d.name, cut, c, wire.Frame(wire.TypeUpdate, body), e, "valid "+spec.Describe()+" with "+d.name))
 			made++
 		}
@@ -700,11 +705,11 @@ func genCases(r *vf.Run) []ccase {
 	var out []ccase
 	out = append(out, g.headerCases(thorough)...)
 	out = append(out, g.openCases()...)
-	out = append(out, g.updateCases(r.N(15, 400))...)
-	out = append(out, g.attrSweep(r.N(1, 16))...)
+	out = append(out, g.updateCases(r.N(20, 400))...)
+	out = append(out, g.attrSweep(r.N(2, 16))...)
 	out = append(out, g.mpEmpty()...)
 	out = append(out, g.oddValid(r.N(100, 3000))...)
-	out = append(out, g.splices(r.N(1000, 150000))...)
+	out = append(out, g.splices(r.N(1500, 150000))...)
 	out = append(out, g.valid(r.N(100, 1000))...)
 	// spread the generators over the batches (a process-fatal stream costs its batch a restart)
 	r.Rand("c21-order").Shuffle(len(out), func(i, j int) { out[i], out[j] = out[j], out[i] })
